@@ -1,12 +1,1496 @@
-//! C16 — (stub: no ops yet)
+//! C16 — `MzMLReader::parse`
+//!
+//!   mzml <style> <filter:opt u8> <sn:opt u8> <n> event…  ->  ok <n> spectrum… | err:<class> | panic
+//!   mzmlraw <filter:opt> <sn:opt> <hex bytes>           ->  same reply (only the class is judged) | hang
+//!
+//! events (rendered 1:1 to XML text by `render`):
+//!   S <tag> <id:optstr> <ref:optstr>   `<tag id=".." spectrumRef="..">`   tag ∈ sp sc bda bin pre ion o<k>
+//!   E <tag>                            `</tag>`
+//!   Z <tag>                            `<tag/>`  (o<k>: a userParam)
+//!   C <cv 0..20> <val> <unit>          `<cvParam accession=.. value=.. unitAccession=../>`
+//!                                      val: a (absent) | g (garbage) | f <f32 bits> | n <integer>;  unit: s m o a
+//!   T e | T b | T d <wire hex> <inflated: 0 | 1 hex>     text: empty | not base64 | base64(wire)
+//! <style>: seed for rendering choices the parser must not care about (white space, comments, attribute
+//!   order, quotes, names of ignored elements, document wrapper), and the route:
+//!   style % 3 == 1: written to a temp `.mzML` file and read with `sage_cloudpath::util::read_mzml`,
+//!   style % 3 == 2: same through a gzip-compressed `.mzML.gz` (both only when no level filter is set).
+//! spectrum: <id hex> <level> <centroid> <tic> <start> <inj> <np> precursor… <nmz> f32… <nint> f32…
+//! precursor: <mz> <int:opt> <charge:opt> <ref:optstr> <window: 0 | 1 lo hi> <mobility:opt>
+//! floats are f32 bit patterns with NaN canonicalised to 0x7fc00000.
 use super::Info;
-use crate::proto::{Case, Rng, Tier, Toks};
+use crate::proto::{Case, Out, Rng, Tier, Toks};
+use sage_cloudpath::mzml::{MzMLError, MzMLReader};
+use sage_core::mass::Tolerance;
+use sage_core::spectrum::{RawSpectrum, Representation};
+use std::io::{Read, Write};
 
-pub const OPS: &[&str] = &[];
-pub const INFO: Info = Info { rule: "", serial: false };
+pub const OPS: &[&str] = &["mzml", "mzmlraw"];
+pub const INFO: Info = Info {
+    rule: "mzml: documents of 1-5 schema-shaped <spectrum> elements built from a random description (MS level 1-3, \
+           centroid/profile, TIC, 0-2 scans with start time in s/min, injection time, ion mobility in scan or \
+           selected ion, 0-3 precursors with optional spectrumRef / isolation window / charge / intensity, 0-4 \
+           binary arrays: m/z, intensity, noise or unknown kind, 32/64 bit, zlib or plain, 0-12 values incl. NaN/inf/ \
+           subnormal/out-of-f32-range, payload lengths that are not a multiple of the word size), rendered to XML \
+           with random white space, comments, attribute order, ignored wrapper elements, userParams and irrelevant \
+           cvParams, parsed with every combination of level filter and S/N level; directed pairs (rich element \
+           followed by a bare one and vice versa, an element whose precursor is never pushed, two precursors in one \
+           spectrum) for every loop-carried local; arrays that declare no kind after one that does; exhaustive optional-field subsets \
+           for two-spectrum documents (thorough); payload lengths 0..17 x dtype x compression; single-fault \
+           documents (absent/unparsable value, missing accession/id/unit, bad base64, bad zlib) for every error \
+           class; `chaos`: well-nested random trees with elements in wrong places; `tic-zero`: the recorded \
+           defect; routes: direct parse, read_mzml from a file, read_mzml from a gzip file. mzmlraw: truncations, \
+           byte flips, deletions, duplications, insertions and concatenations of rendered documents. \
+           Non-trivial = at least two events inside a <spectrum>; distinct by request line",
+    serial: false,
+};
 
-pub fn gen(_rng: &mut Rng, _tier: Tier, _emit: &mut dyn FnMut(Case)) {}
+// ------------------------------------------------------------------------------------------------ events
 
-pub fn exec(_op: &str, _t: &mut Toks) -> Option<String> {
+#[derive(Clone, Debug, PartialEq)]
+enum Tag {
+    Sp,
+    Sc,
+    Bda,
+    Bin,
+    Pre,
+    Ion,
+    Other(usize),
+}
+
+#[derive(Clone, Copy, Debug, PartialEq)]
+enum Val {
+    Absent,
+    Garbage,
+    F(u32),
+    N(u64),
+}
+
+#[derive(Clone, Debug, PartialEq)]
+enum Payload {
+    Empty,
+    Bad,
+    Data(Vec<u8>, Option<Vec<u8>>),
+}
+
+#[derive(Clone, Debug, PartialEq)]
+enum Ev {
+    Start(Tag, Option<String>, Option<String>),
+    End(Tag),
+    EmptyTag(Tag),
+    Cv(usize, Val, char),
+    Text(Payload),
+}
+
+const ZLIB: usize = 0;
+const NOCOMP: usize = 1;
+const F64: usize = 2;
+const F32: usize = 3;
+const MZ: usize = 4;
+const INT: usize = 5;
+const NOISE: usize = 6;
+const LEVEL: usize = 7;
+const PROFILE: usize = 8;
+const CENTROID: usize = 9;
+const TIC: usize = 10;
+const SCANSTART: usize = 11;
+const INJ: usize = 12;
+const SELMZ: usize = 13;
+const SELINT: usize = 14;
+const SELCHARGE: usize = 15;
+const ISOLO: usize = 16;
+const ISOHI: usize = 17;
+const MOB: usize = 18;
+const OTHER: usize = 19;
+const MISSING: usize = 20;
+
+const ACCESSIONS: [&str; 19] = [
+    "MS:1000574", "MS:1000576", "MS:1000523", "MS:1000521", "MS:1000514", "MS:1000515", "MS:1002744",
+    "MS:1000511", "MS:1000128", "MS:1000127", "MS:1000285", "MS:1000016", "MS:1000927", "MS:1000744",
+    "MS:1000042", "MS:1000041", "MS:1000828", "MS:1000829", "MS:1002815",
+];
+const OTHER_ACC: [&str; 14] = [
+    "MS:1000294", "MS:1000130", "MS:1000504", "MS:1000505", "MS:1000528", "MS:1000795", "MS:1000501",
+    "MS:1000827", "MS:1000133", "MS:1000045", "MS:1000516", "MS:1000522", "MS:1002312", "MS:1000040",
+];
+const OTHER_TAGS: [&str; 13] = [
+    "scanList", "precursorList", "isolationWindow", "selectedIonList", "activation", "binaryDataArrayList",
+    "scanWindowList", "scanWindow", "spectrumList", "run", "mzML", "productList", "product",
+];
+const W_SCANLIST: usize = 0;
+const W_PRECLIST: usize = 1;
+const W_ISOWIN: usize = 2;
+const W_IONLIST: usize = 3;
+const W_ACT: usize = 4;
+const W_BDALIST: usize = 5;
+const W_SCANWINLIST: usize = 6;
+const W_SCANWIN: usize = 7;
+
+fn tag_tok(t: &Tag) -> String {
+    match t {
+        Tag::Sp => "sp".into(),
+        Tag::Sc => "sc".into(),
+        Tag::Bda => "bda".into(),
+        Tag::Bin => "bin".into(),
+        Tag::Pre => "pre".into(),
+        Tag::Ion => "ion".into(),
+        Tag::Other(k) => format!("o{k}"),
+    }
+}
+
+fn tag_name(t: &Tag) -> &'static str {
+    match t {
+        Tag::Sp => "spectrum",
+        Tag::Sc => "scan",
+        Tag::Bda => "binaryDataArray",
+        Tag::Bin => "binary",
+        Tag::Pre => "precursor",
+        Tag::Ion => "selectedIon",
+        Tag::Other(k) => OTHER_TAGS[k % OTHER_TAGS.len()],
+    }
+}
+
+fn parse_tag(s: &str) -> Option<Tag> {
+    Some(match s {
+        "sp" => Tag::Sp,
+        "sc" => Tag::Sc,
+        "bda" => Tag::Bda,
+        "bin" => Tag::Bin,
+        "pre" => Tag::Pre,
+        "ion" => Tag::Ion,
+        _ => Tag::Other(s.strip_prefix('o')?.parse().ok()?),
+    })
+}
+
+fn opt_str(o: &mut Out, s: &Option<String>) {
+    match s {
+        None => {
+            o.n(0);
+        }
+        Some(s) => {
+            o.n(1).s(s);
+        }
+    }
+}
+
+fn write_events(o: &mut Out, evs: &[Ev]) {
+    o.n(evs.len());
+    for e in evs {
+        match e {
+            Ev::Start(t, id, rf) => {
+                o.raw("S").raw(&tag_tok(t));
+                opt_str(o, id);
+                opt_str(o, rf);
+            }
+            Ev::End(t) => {
+                o.raw("E").raw(&tag_tok(t));
+            }
+            Ev::EmptyTag(t) => {
+                o.raw("Z").raw(&tag_tok(t));
+            }
+            Ev::Cv(c, v, u) => {
+                o.raw("C").n(*c);
+                match v {
+                    Val::Absent => {
+                        o.raw("a");
+                    }
+                    Val::Garbage => {
+                        o.raw("g");
+                    }
+                    Val::F(b) => {
+                        o.raw("f").n(*b);
+                    }
+                    Val::N(n) => {
+                        o.raw("n").n(*n);
+                    }
+                }
+                o.raw(&u.to_string());
+            }
+            Ev::Text(p) => {
+                o.raw("T");
+                match p {
+                    Payload::Empty => {
+                        o.raw("e");
+                    }
+                    Payload::Bad => {
+                        o.raw("b");
+                    }
+                    Payload::Data(w, i) => {
+                        o.raw("d").bytes(w);
+                        match i {
+                            None => {
+                                o.n(0);
+                            }
+                            Some(b) => {
+                                o.n(1).bytes(b);
+                            }
+                        }
+                    }
+                }
+            }
+        }
+    }
+}
+
+fn read_events(t: &mut Toks) -> Option<Vec<Ev>> {
+    t.list(|t| {
+        Some(match t.tok()? {
+            "S" => {
+                let g = parse_tag(t.tok()?)?;
+                let id = t.opt(|t| t.string())?;
+                let rf = t.opt(|t| t.string())?;
+                Ev::Start(g, id, rf)
+            }
+            "E" => Ev::End(parse_tag(t.tok()?)?),
+            "Z" => Ev::EmptyTag(parse_tag(t.tok()?)?),
+            "C" => {
+                let c = t.usize()?;
+                if c > MISSING {
+                    return None;
+                }
+                let v = match t.tok()? {
+                    "a" => Val::Absent,
+                    "g" => Val::Garbage,
+                    "f" => Val::F(t.tok()?.parse().ok()?),
+                    "n" => Val::N(t.tok()?.parse().ok()?),
+                    _ => return None,
+                };
+                let u = t.tok()?.chars().next()?;
+                if !"smoa".contains(u) {
+                    return None;
+                }
+                Ev::Cv(c, v, u)
+            }
+            "T" => match t.tok()? {
+                "e" => Ev::Text(Payload::Empty),
+                "b" => Ev::Text(Payload::Bad),
+                "d" => {
+                    let w = t.bytes()?;
+                    let i = t.opt(|t| t.bytes())?;
+                    Ev::Text(Payload::Data(w, i))
+                }
+                _ => return None,
+            },
+            _ => return None,
+        })
+    })
+}
+
+fn request(style: u64, filter: Option<u8>, sn: Option<u8>, evs: &[Ev]) -> String {
+    let mut o = Out::new();
+    o.raw("mzml").n(style);
+    for x in [filter, sn] {
+        match x {
+            None => {
+                o.n(0);
+            }
+            Some(v) => {
+                o.n(1).n(v);
+            }
+        }
+    }
+    write_events(&mut o, evs);
+    o.finish()
+}
+
+// ------------------------------------------------------------------------------------------------ zlib
+
+fn deflate(b: &[u8]) -> Vec<u8> {
+    let mut e = flate2::write::ZlibEncoder::new(Vec::new(), flate2::Compression::default());
+    e.write_all(b).unwrap();
+    e.finish().unwrap()
+}
+
+fn inflate(b: &[u8]) -> Option<Vec<u8>> {
+    let mut d = flate2::read::ZlibDecoder::new(b);
+    let mut out = Vec::new();
+    d.read_to_end(&mut out).ok()?;
+    Some(out)
+}
+
+// ------------------------------------------------------------------------------------------------ rendering
+
+fn fmt_val(v: &Val, r: &mut Rng) -> Option<String> {
+    match v {
+        Val::Absent => None,
+        Val::Garbage => Some((*r.pick(&["abc", "", "1.2.3", "0x10", "--1", "1,5"])).to_string()),
+        // `{:?}` always prints a fraction, an exponent, `inf` or `NaN`: parses back to the same f32, never as u8
+        Val::F(b) => Some(format!("{:?}", f32::from_bits(*b))),
+        Val::N(n) => Some(n.to_string()),
+    }
+}
+
+/// events -> XML text. Everything drawn from `style` is something the parser must not care about.
+fn render(style: u64, evs: &[Ev]) -> Vec<u8> {
+    let mut r = Rng::new(style);
+    let wrap = r.chance(1, 2);
+    let ws = r.chance(2, 3);
+    let comments = r.chance(1, 4);
+    let squote = r.chance(1, 6);
+    let q = if squote { '\'' } else { '"' };
+    let mut s = String::new();
+    let mut bin_open = 0usize; // no white space / comments while a <binary> may be open: text there is data
+    let mut depth = 0usize;
+    if wrap {
+        if r.chance(1, 2) {
+            s.push_str("<?xml version=\"1.0\" encoding=\"utf-8\"?>");
+        }
+        s.push_str("<mzML xmlns=\"http://psi.hupo.org/ms/mzml\" version=\"1.1.0\"><run id=\"r\"><spectrumList count=\"1\">");
+        depth = 3;
+    }
+    let mut sep = |s: &mut String, r: &mut Rng, depth: usize, bin_open: usize| {
+        if bin_open == 0 {
+            if ws {
+                s.push('\n');
+                for _ in 0..depth.min(12) {
+                    s.push_str("  ");
+                }
+            }
+            if comments && r.chance(1, 8) {
+                s.push_str("<!-- c -->");
+            }
+        }
+    };
+    for e in evs {
+        match e {
+            Ev::Start(t, id, rf) => {
+                sep(&mut s, &mut r, depth, bin_open);
+                s.push('<');
+                s.push_str(tag_name(t));
+                if *t == Tag::Sp {
+                    s.push_str(&format!(" index={q}0{q}"));
+                }
+                if let Some(id) = id {
+                    s.push_str(&format!(" id={q}{id}{q}"));
+                }
+                if *t == Tag::Sp || *t == Tag::Bda {
+                    s.push_str(&format!(" defaultArrayLength={q}3{q}"));
+                }
+                if let Some(rf) = rf {
+                    s.push_str(&format!(" spectrumRef={q}{rf}{q}"));
+                }
+                if matches!(t, Tag::Other(_)) && r.chance(1, 2) {
+                    s.push_str(&format!(" count={q}1{q}"));
+                }
+                if r.chance(1, 5) {
+                    s.push(' ');
+                }
+                s.push('>');
+                depth += 1;
+                if *t == Tag::Bin {
+                    bin_open += 1;
+                }
+            }
+            Ev::End(t) => {
+                depth = depth.saturating_sub(1);
+                if *t != Tag::Bin {
+                    sep(&mut s, &mut r, depth, bin_open);
+                }
+                if *t == Tag::Bin {
+                    bin_open = bin_open.saturating_sub(1);
+                }
+                s.push_str("</");
+                s.push_str(tag_name(t));
+                s.push('>');
+            }
+            Ev::EmptyTag(t) => {
+                sep(&mut s, &mut r, depth, bin_open);
+                match t {
+                    Tag::Other(k) => s.push_str(&format!(
+                        "<userParam name={q}param {k}{q} type={q}xsd:string{q} value={q}ITMS + c NSI d Full ms2{q}/>"
+                    )),
+                    _ => s.push_str(&format!("<{}/>", tag_name(t))),
+                }
+            }
+            Ev::Cv(c, v, u) => {
+                sep(&mut s, &mut r, depth, bin_open);
+                let mut attrs: Vec<String> = vec![format!("cvRef={q}MS{q}"), format!("name={q}some name{q}")];
+                if *c < OTHER {
+                    attrs.push(format!("accession={q}{}{q}", ACCESSIONS[*c]));
+                } else if *c == OTHER {
+                    attrs.push(format!("accession={q}{}{q}", r.pick(&OTHER_ACC)));
+                }
+                if let Some(v) = fmt_val(v, &mut r) {
+                    attrs.push(format!("value={q}{v}{q}"));
+                }
+                match u {
+                    's' => attrs.push(format!("unitAccession={q}UO:0000010{q}")),
+                    'm' => attrs.push(format!("unitAccession={q}UO:0000031{q}")),
+                    'o' => attrs.push(format!("unitAccession={q}UO:0000028{q}")),
+                    _ => {}
+                }
+                if *u != 'a' && r.chance(1, 2) {
+                    attrs.push(format!("unitCvRef={q}UO{q}"));
+                }
+                if r.chance(1, 2) {
+                    r.shuffle(&mut attrs);
+                }
+                s.push_str("<cvParam");
+                for a in &attrs {
+                    s.push(' ');
+                    s.push_str(a);
+                }
+                s.push_str(if r.chance(1, 3) { " />" } else { "/>" });
+            }
+            Ev::Text(p) => match p {
+                Payload::Empty => {}
+                Payload::Bad => s.push_str(*r.pick(&["!!!not base64!!!", "A", "AAAA=A==", "é"])),
+                Payload::Data(w, _) => s.push_str(&base64::encode(w)),
+            },
+        }
+    }
+    if wrap && bin_open == 0 {
+        if ws {
+            s.push('\n');
+        }
+        s.push_str("</spectrumList></run></mzML>");
+        if ws {
+            s.push('\n');
+        }
+    }
+    s.into_bytes()
+}
+
+// ------------------------------------------------------------------------------------------------ the real parser
+
+fn block_on<F: std::future::Future>(f: F) -> F::Output {
+    // the reader only ever awaits reads from an in-memory slice, which are always ready
+    let mut f = std::pin::pin!(f);
+    let mut cx = std::task::Context::from_waker(std::task::Waker::noop());
+    loop {
+        if let std::task::Poll::Ready(v) = f.as_mut().poll(&mut cx) {
+            return v;
+        }
+    }
+}
+
+fn err_class(e: &MzMLError) -> &'static str {
+    match e {
+        MzMLError::Malformed => "malformed",
+        MzMLError::UnsupportedCV(_) => "unsupported",
+        MzMLError::XMLError(_) => "xml",
+        MzMLError::IOError(_) => "io",
+        MzMLError::Utf8Error(_) => "utf8",
+        MzMLError::FloatError(_) => "float",
+        MzMLError::IntError(_) => "int",
+        MzMLError::Base64Error(_) => "base64",
+    }
+}
+
+fn f32c(o: &mut Out, x: f32) {
+    o.n(if x.is_nan() { 0x7fc0_0000u32 } else { x.to_bits() });
+}
+
+fn optf(o: &mut Out, x: Option<f32>) {
+    match x {
+        None => {
+            o.n(0);
+        }
+        Some(v) => {
+            o.n(1);
+            f32c(o, v);
+        }
+    }
+}
+
+fn reply_ok(spectra: &[RawSpectrum]) -> String {
+    let mut o = Out::new();
+    o.raw("ok").n(spectra.len());
+    for s in spectra {
+        o.s(&s.id).n(s.ms_level).b(s.representation == Representation::Centroid);
+        f32c(&mut o, s.total_ion_current);
+        f32c(&mut o, s.scan_start_time);
+        f32c(&mut o, s.ion_injection_time);
+        o.n(s.precursors.len());
+        for p in &s.precursors {
+            f32c(&mut o, p.mz);
+            optf(&mut o, p.intensity);
+            match p.charge {
+                None => {
+                    o.n(0);
+                }
+                Some(c) => {
+                    o.n(1).n(c);
+                }
+            }
+            opt_str(&mut o, &p.spectrum_ref);
+            match p.isolation_window {
+                None => {
+                    o.n(0);
+                }
+                Some(Tolerance::Da(a, b)) => {
+                    o.n(1);
+                    f32c(&mut o, a);
+                    f32c(&mut o, b);
+                }
+                Some(Tolerance::Ppm(a, b)) | Some(Tolerance::Pct(a, b)) => {
+                    o.n(2);
+                    f32c(&mut o, a);
+                    f32c(&mut o, b);
+                }
+            }
+            optf(&mut o, p.inverse_ion_mobility);
+        }
+        o.n(s.mz.len());
+        for &x in &s.mz {
+            f32c(&mut o, x);
+        }
+        o.n(s.intensity.len());
+        for &x in &s.intensity {
+            f32c(&mut o, x);
+        }
+    }
+    o.finish()
+}
+
+fn parse_direct(filter: Option<u8>, sn: Option<u8>, doc: &[u8]) -> String {
+    let mut rd = match filter {
+        Some(l) => MzMLReader::with_file_id_and_level_filter(7, l),
+        None => MzMLReader::with_file_id(7),
+    };
+    rd.set_signal_to_noise(sn);
+    match block_on(rd.parse(doc)) {
+        Ok(sp) => {
+            if sp.iter().any(|s| s.file_id != 7) {
+                return "bad-file-id".into();
+            }
+            reply_ok(&sp)
+        }
+        Err(e) => format!("err:{}", err_class(&e)),
+    }
+}
+
+static FILE_COUNTER: std::sync::atomic::AtomicUsize = std::sync::atomic::AtomicUsize::new(0);
+
+/// the public file route: `util::read_mzml` (tokio runtime, file reader, gzip by extension)
+fn parse_via_file(gz: bool, sn: Option<u8>, doc: &[u8]) -> String {
+    let n = FILE_COUNTER.fetch_add(1, std::sync::atomic::Ordering::Relaxed);
+    let dir = std::env::temp_dir().join(format!("verif-c16-{}", std::process::id()));
+    let _ = std::fs::create_dir_all(&dir);
+    let path = dir.join(format!("d{n}.mzML{}", if gz { ".gz" } else { "" }));
+    let bytes = if gz {
+        let mut e = flate2::write::GzEncoder::new(Vec::new(), flate2::Compression::fast());
+        e.write_all(doc).unwrap();
+        e.finish().unwrap()
+    } else {
+        doc.to_vec()
+    };
+    std::fs::write(&path, bytes).unwrap();
+    let res = sage_cloudpath::util::read_mzml(path.to_str().unwrap(), 7, sn);
+    let _ = std::fs::remove_file(&path);
+    match res {
+        Ok(sp) => reply_ok(&sp),
+        Err(sage_cloudpath::Error::MzML(e)) => format!("err:{}", err_class(&e)),
+        Err(sage_cloudpath::Error::IO(_)) => "err:io".into(),
+        Err(_) => "err:other".into(),
+    }
+}
+
+pub fn exec(op: &str, t: &mut Toks) -> Option<String> {
+    match op {
+        "mzml" => {
+            let style: u64 = t.tok()?.parse().ok()?;
+            let filter = t.opt(|t| t.usize())?.map(|x| x as u8);
+            let sn = t.opt(|t| t.usize())?.map(|x| x as u8);
+            let evs = read_events(t)?;
+            if !t.done() {
+                return None;
+            }
+            // the request states what zlib makes of each payload; do not take its word for it
+            let mut prev_text = false;
+            for e in &evs {
+                if let Ev::Text(p) = e {
+                    if prev_text {
+                        return None; // adjacent text nodes would merge into one
+                    }
+                    if let Payload::Data(w, i) = p {
+                        if inflate(w) != *i {
+                            return None;
+                        }
+                    }
+                }
+                prev_text = matches!(e, Ev::Text(p) if *p != Payload::Empty);
+            }
+            let doc = render(style, &evs);
+            Some(match (style % 3, filter) {
+                (1, None) => parse_via_file(false, sn, &doc),
+                (2, None) => parse_via_file(true, sn, &doc),
+                _ => parse_direct(filter, sn, &doc),
+            })
+        }
+        "mzmlraw" => {
+            let filter = t.opt(|t| t.usize())?.map(|x| x as u8);
+            let sn = t.opt(|t| t.usize())?.map(|x| x as u8);
+            let doc = t.bytes()?;
+            // watchdog: the loop logs XML errors and carries on, so termination is not a given
+            let (tx, rx) = std::sync::mpsc::channel();
+            std::thread::spawn(move || {
+                let r = std::panic::catch_unwind(|| parse_direct(filter, sn, &doc));
+                let _ = tx.send(r.unwrap_or_else(|_| "panic".into()));
+            });
+            Some(rx.recv_timeout(std::time::Duration::from_secs(20)).unwrap_or_else(|_| "hang".into()))
+        }
+        _ => None,
+    }
+}
+
+// ------------------------------------------------------------------------------------------------ generator
+
+#[derive(Clone, Debug)]
+struct P {
+    c: usize,
+    v: Val,
+    u: char,
+}
+
+#[derive(Clone, Debug)]
+struct Arr {
+    params: Vec<P>,
+    payload: Payload,
+}
+
+#[derive(Clone, Debug, Default)]
+struct Prec {
+    rf: Option<String>,
+    iso: Vec<P>,
+    ions: Vec<Vec<P>>,
+    act: Vec<P>,
+}
+
+#[derive(Clone, Debug, Default)]
+struct El {
+    id: String,
+    params: Vec<P>,
+    scans: Vec<Vec<P>>,
+    precs: Vec<Prec>,
+    arrays: Vec<Arr>,
+}
+
+fn p(c: usize, v: Val) -> P {
+    P { c, v, u: 'a' }
+}
+
+fn flag(c: usize) -> P {
+    P { c, v: Val::Absent, u: 'a' }
+}
+
+/// a float-valued attribute: mostly ordinary positive numbers, sometimes integers, rarely special values
+fn fval(r: &mut Rng) -> Val {
+    match r.below(20) {
+        0..=4 => Val::N(1 + r.below(5000) as u64),
+        5 => Val::F(*r.pick(&[0x7f80_0000u32, 0x7fc0_0000, 0x0000_0001, 0x7f7f_ffff, 0xc2f6_0000, 0x3400_0000])),
+        6 => Val::N(16_777_217 + r.below(1000) as u64), // above 2^24: parse must round
+        _ => Val::F(((r.unit() * 2000.0 + 0.001) as f32).to_bits()),
+    }
+}
+
+fn other_cv(r: &mut Rng) -> P {
+    let v = match r.below(3) {
+        0 => Val::Absent,
+        1 => fval(r),
+        _ => Val::Garbage, // never read, so never an error
+    };
+    P { c: OTHER, v, u: *r.pick(&['a', 'a', 'o', 's']) }
+}
+
+fn sprinkle(r: &mut Rng, ps: &mut Vec<P>, noise: u32) {
+    let n = ps.len();
+    for i in (0..=n).rev() {
+        if r.chance(noise, 100) {
+            ps.insert(i, other_cv(r));
+        }
+    }
+}
+
+fn rand_value_bytes(r: &mut Rng, is64: bool) -> Vec<u8> {
+    if is64 {
+        let x: f64 = match r.below(24) {
+            0 => f64::NAN,
+            1 => f64::INFINITY,
+            2 => 1e300,  // -> inf as f32
+            3 => 1e-300, // -> 0
+            4 => -0.0,
+            5 => 3.4028235677973366e38, // rounds up to inf / max boundary
+            6 => 1.401298464324817e-45, // f32 min subnormal
+            7 => 1.0000000596046448,    // halfway between two f32
+            8 => f64::from_bits(r.next()),
+            _ => r.unit() * 2000.0,
+        };
+        x.to_le_bytes().to_vec()
+    } else {
+        let x: f32 = match r.below(16) {
+            0 => f32::NAN,
+            1 => f32::NEG_INFINITY,
+            2 => f32::from_bits(1),
+            3 => 0.0,
+            4 => f32::from_bits(r.next() as u32),
+            _ => (r.unit() * 2000.0) as f32,
+        };
+        x.to_le_bytes().to_vec()
+    }
+}
+
+fn mk_payload(bytes: Vec<u8>, zlib: bool) -> Payload {
+    if zlib {
+        let w = deflate(&bytes);
+        Payload::Data(w, Some(bytes))
+    } else {
+        let i = inflate(&bytes);
+        Payload::Data(bytes, i)
+    }
+}
+
+/// kind: MZ / INT / NOISE / OTHER (an array kind the reader does not know)
+fn gen_arr(r: &mut Rng, kind: usize, nvals: usize, ragged: bool) -> Arr {
+    let is64 = r.chance(1, 2);
+    let zlib = r.chance(1, 2);
+    let mut bytes = Vec::new();
+    for _ in 0..nvals {
+        bytes.extend(rand_value_bytes(r, is64));
+    }
+    if ragged {
+        let extra = 1 + r.below(if is64 { 7 } else { 3 });
+        for _ in 0..extra {
+            bytes.push(r.next() as u8);
+        }
+    }
+    let mut params = vec![flag(if is64 { F64 } else { F32 }), flag(if zlib { ZLIB } else { NOCOMP }), flag(kind)];
+    r.shuffle(&mut params);
+    // irrelevant cvParams may only precede the array kind: an unknown accession after it un-declares the kind
+    // (as coded; such documents are generated separately under the tag `unknown-after-kind`)
+    let kpos = params.iter().position(|q| q.c == kind).unwrap();
+    if r.chance(1, 4) {
+        let at = r.below(kpos + 1);
+        params.insert(at, other_cv(r));
+    }
+    let payload = if nvals == 0 && !ragged && r.chance(1, 2) { Payload::Empty } else { mk_payload(bytes, zlib) };
+    Arr { params, payload }
+}
+
+struct Opts {
+    level: u8,
+    noise_cv: u32, // percent chance of irrelevant params
+    rich: Option<bool>, // Some(true): every optional field present; Some(false): none
+}
+
+fn gen_id(r: &mut Rng, n: usize) -> String {
+    match r.below(4) {
+        0 => format!("scan={n}"),
+        1 => format!("controllerType=0 controllerNumber=1 scan={n}"),
+        2 => format!("spectrum={}", r.below(100000)),
+        _ => format!("S{n}.{}-x_y:z", r.below(10)),
+    }
+}
+
+fn gen_el(r: &mut Rng, n: usize, o: &Opts) -> El {
+    let has = |r: &mut Rng, pct: u32| match o.rich {
+        Some(b) => b,
+        None => r.chance(pct, 100),
+    };
+    let mut e = El { id: gen_id(r, n), ..Default::default() };
+    // direct params
+    let mut ps = Vec::new();
+    if has(r, 70) {
+        ps.push(flag(if r.chance(3, 4) { CENTROID } else { PROFILE }));
+    }
+    if o.rich != Some(false) || r.chance(1, 2) {
+        ps.push(p(LEVEL, Val::N(o.level as u64)));
+    }
+    if has(r, 60) {
+        ps.push(p(TIC, Val::F(((r.unit() * 1e6 + 1.0) as f32).to_bits())));
+    }
+    if o.rich.is_none() {
+        r.shuffle(&mut ps);
+    }
+    sprinkle(r, &mut ps, o.noise_cv);
+    e.params = ps;
+    // scans
+    let nscans = match o.rich {
+        Some(true) => 1,
+        Some(false) => 0,
+        None => *r.pick(&[0usize, 1, 1, 1, 1, 2]),
+    };
+    for _ in 0..nscans {
+        let mut sp = Vec::new();
+        if has(r, 90) {
+            sp.push(P { c: SCANSTART, v: fval(r), u: if r.chance(1, 2) { 's' } else { 'm' } });
+        }
+        if has(r, 50) {
+            sp.push(p(INJ, fval(r)));
+        }
+        if has(r, 25) {
+            sp.push(p(MOB, fval(r)));
+        }
+        if o.rich.is_none() {
+            r.shuffle(&mut sp);
+            if r.chance(1, 10) {
+                // accessions that mean something elsewhere mean nothing here
+                sp.push(p(*r.pick(&[LEVEL, TIC, SELMZ, ISOLO, MZ, ZLIB]), Val::N(3)));
+            }
+        }
+        sprinkle(r, &mut sp, o.noise_cv);
+        e.scans.push(sp);
+    }
+    // precursors
+    let nprec = match o.rich {
+        Some(true) => 1,
+        Some(false) => 0,
+        None => {
+            if o.level >= 2 {
+                *r.pick(&[0usize, 1, 1, 1, 2, 3])
+            } else if r.chance(1, 10) {
+                1
+            } else {
+                0
+            }
+        }
+    };
+    for k in 0..nprec {
+        let mut pe = Prec::default();
+        if has(r, 50) {
+            pe.rf = Some(format!("scan={}", n + k));
+        }
+        if has(r, 60) {
+            pe.iso.push(p(OTHER, fval(r)));
+            if has(r, 90) {
+                pe.iso.push(p(ISOLO, fval(r)));
+            }
+            if has(r, 90) {
+                pe.iso.push(p(ISOHI, fval(r)));
+            }
+            if o.rich.is_none() {
+                r.shuffle(&mut pe.iso);
+            }
+        }
+        let nions = match o.rich {
+            Some(_) => 1,
+            None => *r.pick(&[0usize, 1, 1, 1, 1, 2]),
+        };
+        for _ in 0..nions {
+            let mut ip = Vec::new();
+            if o.rich == Some(true) || r.chance(9, 10) {
+                // m/z 0 (any spelling) means "no precursor": it must not be pushed
+                let v = if o.rich.is_none() && r.chance(1, 12) {
+                    *r.pick(&[Val::N(0), Val::F(0), Val::F(0x8000_0000)])
+                } else {
+                    fval(r)
+                };
+                ip.push(p(SELMZ, v));
+            }
+            if has(r, 60) {
+                ip.push(p(SELCHARGE, Val::N(*r.pick(&[0u64, 1, 2, 3, 4, 255]))));
+            }
+            if has(r, 40) {
+                ip.push(p(SELINT, fval(r)));
+            }
+            if has(r, 25) {
+                ip.push(p(MOB, fval(r)));
+            }
+            if o.rich.is_none() {
+                r.shuffle(&mut ip);
+            }
+            sprinkle(r, &mut ip, o.noise_cv);
+            pe.ions.push(ip);
+        }
+        if has(r, 50) {
+            pe.act.push(other_cv(r));
+            if o.rich.is_none() && r.chance(1, 10) {
+                pe.act.push(p(ISOHI, fval(r)));
+            }
+        }
+        e.precs.push(pe);
+    }
+    // arrays
+    match o.rich {
+        Some(true) => {
+            let n = 1 + r.below(6);
+            e.arrays.push(gen_arr(r, MZ, n, false));
+            e.arrays.push(gen_arr(r, INT, n, false));
+            e.arrays.push(gen_arr(r, NOISE, n, false));
+        }
+        Some(false) => {}
+        None => {
+            let n = r.below(13);
+            let mut kinds: Vec<usize> = Vec::new();
+            if r.chance(9, 10) {
+                kinds.push(MZ);
+            }
+            if r.chance(9, 10) {
+                kinds.push(INT);
+            }
+            if r.chance(1, 3) {
+                kinds.push(NOISE);
+            }
+            if r.chance(1, 5) {
+                kinds.push(OTHER);
+            }
+            if r.chance(1, 12) {
+                kinds.push(*r.pick(&[MZ, INT, NOISE])); // a second array of the same kind: the last one wins
+            }
+            if r.chance(1, 3) {
+                r.shuffle(&mut kinds);
+            }
+            for k in kinds {
+                // noise arrays of a different length than the intensities, zeros in them, ragged payloads
+                let len = if r.chance(1, 6) { r.below(13) } else { n };
+                let ragged = r.chance(1, 10);
+                e.arrays.push(gen_arr(r, k, len, ragged));
+            }
+        }
+    }
+    e
+}
+
+fn push_params(out: &mut Vec<Ev>, ps: &[P], r: &mut Rng, junk: u32) {
+    for q in ps {
+        if r.chance(junk, 100) {
+            out.push(Ev::EmptyTag(Tag::Other(r.below(5))));
+        }
+        out.push(Ev::Cv(q.c, q.v.clone(), q.u));
+    }
+}
+
+/// SAX order of the element, with the wrapper elements and userParams real files have (`junk` percent)
+fn events_of(e: &El, r: &mut Rng, junk: u32) -> Vec<Ev> {
+    let wrapped = junk > 0;
+    let mut out = vec![Ev::Start(Tag::Sp, Some(e.id.clone()), None)];
+    push_params(&mut out, &e.params, r, junk);
+    if wrapped && !e.scans.is_empty() {
+        out.push(Ev::Start(Tag::Other(W_SCANLIST), None, None));
+        out.push(Ev::Cv(OTHER, Val::Absent, 'a')); // "no combination": a cvParam directly in scanList
+    }
+    for s in &e.scans {
+        out.push(Ev::Start(Tag::Sc, None, None));
+        push_params(&mut out, s, r, junk);
+        if wrapped && r.chance(1, 2) {
+            out.push(Ev::Start(Tag::Other(W_SCANWINLIST), None, None));
+            out.push(Ev::Start(Tag::Other(W_SCANWIN), None, None));
+            out.push(Ev::Cv(OTHER, Val::N(115), 'o'));
+            out.push(Ev::Cv(OTHER, Val::N(930), 'o'));
+            out.push(Ev::End(Tag::Other(W_SCANWIN)));
+            out.push(Ev::End(Tag::Other(W_SCANWINLIST)));
+        }
+        out.push(Ev::End(Tag::Sc));
+    }
+    if wrapped && !e.scans.is_empty() {
+        out.push(Ev::End(Tag::Other(W_SCANLIST)));
+    }
+    if wrapped && !e.precs.is_empty() {
+        out.push(Ev::Start(Tag::Other(W_PRECLIST), None, None));
+    }
+    for pe in &e.precs {
+        out.push(Ev::Start(Tag::Pre, None, pe.rf.clone()));
+        if wrapped && !pe.iso.is_empty() {
+            out.push(Ev::Start(Tag::Other(W_ISOWIN), None, None));
+        }
+        push_params(&mut out, &pe.iso, r, 0);
+        if wrapped && !pe.iso.is_empty() {
+            out.push(Ev::End(Tag::Other(W_ISOWIN)));
+        }
+        if wrapped && !pe.ions.is_empty() {
+            out.push(Ev::Start(Tag::Other(W_IONLIST), None, None));
+        }
+        for ip in &pe.ions {
+            out.push(Ev::Start(Tag::Ion, None, None));
+            push_params(&mut out, ip, r, junk);
+            out.push(Ev::End(Tag::Ion));
+        }
+        if wrapped && !pe.ions.is_empty() {
+            out.push(Ev::End(Tag::Other(W_IONLIST)));
+        }
+        if wrapped && !pe.act.is_empty() {
+            out.push(Ev::Start(Tag::Other(W_ACT), None, None));
+        }
+        push_params(&mut out, &pe.act, r, 0);
+        if wrapped && !pe.act.is_empty() {
+            out.push(Ev::End(Tag::Other(W_ACT)));
+        }
+        out.push(Ev::End(Tag::Pre));
+    }
+    if wrapped && !e.precs.is_empty() {
+        out.push(Ev::End(Tag::Other(W_PRECLIST)));
+    }
+    if wrapped && !e.arrays.is_empty() {
+        out.push(Ev::Start(Tag::Other(W_BDALIST), None, None));
+    }
+    for a in &e.arrays {
+        out.push(Ev::Start(Tag::Bda, None, None));
+        push_params(&mut out, &a.params, r, 0);
+        out.push(Ev::Start(Tag::Bin, None, None));
+        out.push(Ev::Text(a.payload.clone()));
+        out.push(Ev::End(Tag::Bin));
+        out.push(Ev::End(Tag::Bda));
+    }
+    if wrapped && !e.arrays.is_empty() {
+        out.push(Ev::End(Tag::Other(W_BDALIST)));
+    }
+    out.push(Ev::End(Tag::Sp));
+    out
+}
+
+fn doc_events(els: &[El], r: &mut Rng, junk: u32) -> Vec<Ev> {
+    els.iter().flat_map(|e| events_of(e, r, junk)).collect()
+}
+
+fn rand_cfg(r: &mut Rng) -> (Option<u8>, Option<u8>) {
+    let filter = *r.pick(&[None, None, None, Some(1u8), Some(2), Some(2), Some(3)]);
+    let sn = *r.pick(&[None, None, Some(1u8), Some(2), Some(2), Some(3)]);
+    (filter, sn)
+}
+
+/// style with a chosen route (0 direct, 1 file, 2 gzip file)
+fn style_for(r: &mut Rng, route: u64) -> u64 {
+    let s = r.next() % 1_000_000;
+    s - s % 3 + route
+}
+
+fn chaos_tree(r: &mut Rng, depth: usize, out: &mut Vec<Ev>, budget: &mut usize) {
+    let n = r.below(5);
+    let mut last_text = false;
+    for _ in 0..n {
+        if *budget == 0 {
+            return;
+        }
+        *budget -= 1;
+        match r.below(10) {
+            0..=3 => {
+                let c = r.below(MISSING + 1);
+                let c = if c == MISSING && !r.chance(1, 6) { OTHER } else { c };
+                let v = match r.below(8) {
+                    0 => Val::Absent,
+                    1 => Val::Garbage,
+                    2 => Val::N(r.below(400) as u64),
+                    3 => Val::N(r.below(4) as u64),
+                    _ => fval(r),
+                };
+                // flags without a value attribute for the accessions that never read one
+                let v = if c <= NOISE || c == PROFILE || c == CENTROID { Val::Absent } else { v };
+                out.push(Ev::Cv(c, v, *r.pick(&['s', 'm', 'm', 'o', 'a'])));
+                last_text = false;
+            }
+            4 => {
+                if !last_text {
+                    let pl = match r.below(6) {
+                        0 => Payload::Empty,
+                        1 => Payload::Bad,
+                        _ => {
+                            let is64 = r.chance(1, 2);
+                            let mut b = Vec::new();
+                            for _ in 0..r.below(4) {
+                                b.extend(rand_value_bytes(r, is64));
+                            }
+                            for _ in 0..r.below(3) {
+                                b.push(r.next() as u8);
+                            }
+                            mk_payload(b, r.chance(1, 2))
+                        }
+                    };
+                    last_text = pl != Payload::Empty;
+                    out.push(Ev::Text(pl));
+                }
+            }
+            5 => {
+                out.push(Ev::EmptyTag(if r.chance(1, 2) { Tag::Other(r.below(9)) } else { Tag::Sc }));
+                last_text = false;
+            }
+            _ => {
+                if depth < 6 {
+                    let t = match r.below(9) {
+                        0 | 1 => Tag::Sp,
+                        2 => Tag::Sc,
+                        3 | 4 => Tag::Bda,
+                        5 => Tag::Bin,
+                        6 => Tag::Pre,
+                        7 => Tag::Ion,
+                        _ => Tag::Other(r.below(9)),
+                    };
+                    let id = if t == Tag::Sp && !r.chance(1, 12) { Some(format!("c{}", r.below(100))) } else { None };
+                    let rf = if t == Tag::Pre && r.chance(1, 2) { Some("ref".to_string()) } else { None };
+                    out.push(Ev::Start(t.clone(), id, rf));
+                    chaos_tree(r, depth + 1, out, budget);
+                    out.push(Ev::End(t));
+                    last_text = false;
+                }
+            }
+        }
+    }
+}
+
+/// the element positions (event indices) at which a single fault can be injected
+fn inject_fault(r: &mut Rng, evs: &mut Vec<Ev>) -> Option<&'static str> {
+    let idx: Vec<usize> = (0..evs.len()).collect();
+    let mut order = idx.clone();
+    r.shuffle(&mut order);
+    let kind = r.below(7);
+    for i in order {
+        match (kind, &evs[i]) {
+            (0, Ev::Cv(c, _, u)) if *c >= LEVEL && *c < OTHER && *c != PROFILE && *c != CENTROID => {
+                evs[i] = Ev::Cv(*c, Val::Absent, *u);
+                return Some("fault:value-absent");
+            }
+            (1, Ev::Cv(c, _, u)) if *c >= LEVEL && *c < OTHER && *c != PROFILE && *c != CENTROID => {
+                evs[i] = Ev::Cv(*c, Val::Garbage, *u);
+                return Some("fault:value-garbage");
+            }
+            (2, Ev::Cv(c, _, u)) if *c == LEVEL || *c == SELCHARGE => {
+                let v = if r.chance(1, 2) { Val::N(256 + r.below(1000) as u64) } else { Val::F(0x4000_0000) };
+                evs[i] = Ev::Cv(*c, v, *u);
+                return Some("fault:u8-out-of-range");
+            }
+            (3, Ev::Cv(_, v, u)) => {
+                evs[i] = Ev::Cv(MISSING, v.clone(), *u);
+                return Some("fault:no-accession");
+            }
+            (4, Ev::Cv(c, v, _)) if *c == SCANSTART => {
+                evs[i] = Ev::Cv(*c, v.clone(), if r.chance(1, 2) { 'o' } else { 'a' });
+                return Some("fault:unit");
+            }
+            (5, Ev::Text(Payload::Data(w, inf))) => {
+                if r.chance(1, 2) {
+                    evs[i] = Ev::Text(Payload::Bad);
+                    return Some("fault:base64");
+                } else if inf.is_some() && w.len() > 6 {
+                    // a zlib stream cut short, or with a corrupted header
+                    let mut w2 = w.clone();
+                    if r.chance(1, 2) {
+                        w2.truncate(w.len() / 2);
+                    } else {
+                        w2[0] ^= 0x55;
+                    }
+                    let i2 = inflate(&w2);
+                    evs[i] = Ev::Text(Payload::Data(w2, i2));
+                    return Some("fault:zlib");
+                }
+            }
+            (6, Ev::Start(Tag::Sp, Some(_), _)) => {
+                evs[i] = Ev::Start(Tag::Sp, None, None);
+                return Some("fault:no-id");
+            }
+            _ => {}
+        }
+    }
     None
+}
+
+fn mutate_bytes(r: &mut Rng, doc: &[u8], other: &[u8]) -> (Vec<u8>, &'static str) {
+    let mut d = doc.to_vec();
+    if d.is_empty() {
+        return (d, "raw:empty");
+    }
+    match r.below(8) {
+        0 => {
+            d.truncate(r.below(d.len()));
+            (d, "raw:truncate")
+        }
+        1 => {
+            for _ in 0..1 + r.below(4) {
+                let i = r.below(d.len());
+                d[i] ^= 1 << r.below(8);
+            }
+            (d, "raw:bitflip")
+        }
+        2 => {
+            let a = r.below(d.len());
+            let b = (a + 1 + r.below(40)).min(d.len());
+            d.drain(a..b);
+            (d, "raw:delete")
+        }
+        3 => {
+            let a = r.below(d.len());
+            let b = (a + 1 + r.below(60)).min(d.len());
+            let seg: Vec<u8> = d[a..b].to_vec();
+            let at = r.below(d.len());
+            d.splice(at..at, seg);
+            (d, "raw:duplicate")
+        }
+        4 => {
+            let at = r.below(d.len());
+            let junk: Vec<u8> = (0..1 + r.below(6)).map(|_| *r.pick(b"<>&\"'/=;\x00\xff \n-]!?[Aa0")).collect();
+            d.splice(at..at, junk);
+            (d, "raw:insert")
+        }
+        5 => {
+            d.extend_from_slice(other);
+            (d, "raw:concat")
+        }
+        6 => {
+            // cut inside, then glue the tail of another document
+            d.truncate(r.below(d.len()));
+            let a = r.below(other.len().max(1));
+            d.extend_from_slice(&other[a.min(other.len())..]);
+            (d, "raw:splice")
+        }
+        _ => {
+            let i = r.below(d.len());
+            d[i] = *r.pick(b"<>&\"'/=");
+            (d, "raw:metachar")
+        }
+    }
+}
+
+fn nontrivial(evs: &[Ev]) -> bool {
+    evs.len() >= 4
+}
+
+pub fn gen(rng: &mut Rng, tier: Tier, emit: &mut dyn FnMut(Case)) {
+    let quick = tier == Tier::Quick;
+    let scale = if quick { 1 } else { 20 };
+
+    // --- A: random schema-shaped documents, all configurations and routes
+    for i in 0..400 * scale {
+        let nsp = 1 + rng.below(5);
+        let noise_cv = *rng.pick(&[0u32, 10, 30]);
+        let els: Vec<El> = (0..nsp)
+            .map(|n| {
+                let level = *rng.pick(&[1u8, 2, 2, 2, 3]);
+                gen_el(rng, n, &Opts { level, noise_cv, rich: None })
+            })
+            .collect();
+        let junk = *rng.pick(&[0u32, 15, 15]);
+        let evs = doc_events(&els, rng, junk);
+        let (mut filter, sn) = rand_cfg(rng);
+        let route = if i % 8 == 6 { 1 } else if i % 8 == 7 { 2 } else { 0 };
+        if route != 0 {
+            filter = None;
+        }
+        let style = style_for(rng, route);
+        emit(Case::new(request(style, filter, sn, &evs))
+            .tag("wellformed")
+            .tag_if(route == 1, "route:file")
+            .tag_if(route == 2, "route:gzip-file")
+            .tag_if(filter.is_some(), "level-filter")
+            .tag_if(sn.is_some(), "signal-to-noise")
+            .tag_if(nsp >= 2, "multi-spectrum")
+            .nontrivial(nontrivial(&evs)));
+    }
+
+    // --- B: directed: a rich element followed by a bare one (and back), for every loop-carried local
+    for rep in 0..(if quick { 6 } else { 60 }) {
+        for &(l1, l2) in &[(2u8, 2u8), (1, 2), (2, 3), (3, 2), (2, 1)] {
+            let rich = gen_el(rng, 1, &Opts { level: l1, noise_cv: 0, rich: Some(true) });
+            let mut bare = gen_el(rng, 2, &Opts { level: l2, noise_cv: 0, rich: Some(false) });
+            bare.params = vec![p(LEVEL, Val::N(l2 as u64))];
+            // the bare element still has a precursor and an intensity array, so that leaked values would show
+            let mut bp = Prec::default();
+            bp.ions.push(vec![p(SELMZ, fval(rng))]);
+            bare.precs.push(bp.clone());
+            let nb = 1 + rng.below(4);
+            bare.arrays.push(gen_arr(rng, INT, nb, false));
+            // an element whose precursor is never pushed (no m/z) but carries everything else
+            let mut ghost = rich.clone();
+            ghost.id = "ghost".into();
+            for pe in ghost.precs.iter_mut() {
+                for ip in pe.ions.iter_mut() {
+                    ip.retain(|q| q.c != SELMZ);
+                }
+            }
+            // two precursors in ONE spectrum: the second declares nothing but its m/z
+            let mut two = rich.clone();
+            two.id = "two".into();
+            two.precs.push(bp.clone());
+            // ... and one whose first precursor is never pushed
+            let mut two_ghost = ghost.clone();
+            two_ghost.id = "two-ghost".into();
+            two_ghost.precs.push(bp);
+            let docs: Vec<(Vec<&El>, &'static str)> = vec![
+                (vec![&two], "pair:two-precursors"),
+                (vec![&two_ghost, &bare], "pair:two-precursors"),
+                (vec![&rich, &bare], "pair:rich-bare"),
+                (vec![&bare, &rich, &bare], "pair:bare-rich-bare"),
+                (vec![&ghost, &bare], "pair:unpushed-precursor-bare"),
+                (vec![&rich, &ghost, &bare, &rich], "pair:mixed"),
+            ];
+            for (d, tag) in docs {
+                let els: Vec<El> = d.into_iter().cloned().collect();
+                let evs = doc_events(&els, rng, if rep % 2 == 0 { 0 } else { 15 });
+                for &filter in &[None, Some(l2)] {
+                    for &sn in &[None, Some(l1), Some(l2)] {
+                        let style = style_for(rng, 0);
+                        emit(Case::new(request(style, filter, sn, &evs)).tag("directed-pair").tag(tag));
+                    }
+                }
+            }
+        }
+    }
+
+    // --- B2 (thorough): exhaustive optional-field subsets for two-spectrum documents
+    if !quick {
+        let mk = |bits: u32, id: &str, rng: &mut Rng| -> El {
+            let mut e = El { id: id.into(), ..Default::default() };
+            e.params.push(p(LEVEL, Val::N(2)));
+            let mut sc = vec![P { c: SCANSTART, v: Val::N(60), u: 's' }];
+            if bits & 1 != 0 {
+                sc.push(p(INJ, Val::N(25)));
+            }
+            if bits & 2 != 0 {
+                sc.push(p(MOB, Val::F(0x3f8a_0000)));
+            }
+            e.scans.push(sc);
+            let mut pe = Prec::default();
+            if bits & 4 != 0 {
+                pe.rf = Some("scan=1".into());
+            }
+            if bits & 8 != 0 {
+                pe.iso = vec![p(ISOLO, Val::F(0x3fc0_0000)), p(ISOHI, Val::F(0x3f40_0000))];
+            }
+            let mut ip = vec![];
+            if bits & 16 != 0 {
+                ip.push(p(SELMZ, Val::N(500)));
+            }
+            if bits & 32 != 0 {
+                ip.push(p(SELCHARGE, Val::N(3)));
+                ip.push(p(SELINT, Val::N(1000)));
+            }
+            pe.ions.push(ip);
+            e.precs.push(pe);
+            e.arrays.push(gen_arr(rng, INT, 2, false));
+            if bits & 64 != 0 {
+                e.arrays.push(gen_arr(rng, NOISE, 2, false));
+            }
+            e
+        };
+        for b1 in 0..128u32 {
+            for b2 in 0..128u32 {
+                let els = vec![mk(b1, "a", rng), mk(b2, "b", rng)];
+                let evs = doc_events(&els, rng, 0);
+                emit(Case::new(request(style_for(rng, 0), None, Some(2), &evs)).tag("exhaustive-optional-fields"));
+            }
+        }
+    }
+
+    // --- C: payload lengths around the word size (the repaired 64-bit panic lives here)
+    for len in 0..=17usize {
+        for &is64 in &[false, true] {
+            for &zlib in &[false, true] {
+                let bytes: Vec<u8> = (0..len).map(|_| rng.next() as u8).collect();
+                let arr = Arr {
+                    params: vec![flag(MZ), flag(if is64 { F64 } else { F32 }), flag(if zlib { ZLIB } else { NOCOMP })],
+                    payload: mk_payload(bytes, zlib),
+                };
+                let mut e = El { id: format!("len{len}"), ..Default::default() };
+                e.params.push(p(LEVEL, Val::N(2)));
+                e.arrays.push(arr);
+                let evs = doc_events(&[e], rng, 0);
+                emit(Case::new(request(style_for(rng, 0), None, None, &evs))
+                    .tag("payload-length")
+                    .tag_if(len % if is64 { 8 } else { 4 } != 0, "payload-ragged"));
+            }
+        }
+    }
+
+    // --- C2: an unknown accession after the array kind un-declares it (as coded; outside the schema-shaped class)
+    for _ in 0..10 * scale {
+        let mut e = gen_el(rng, 0, &Opts { level: 2, noise_cv: 0, rich: Some(true) });
+        for a in e.arrays.iter_mut() {
+            if rng.chance(1, 2) {
+                a.params.push(other_cv(rng));
+            }
+        }
+        let evs = doc_events(&[e], rng, 0);
+        emit(Case::new(request(style_for(rng, 0), None, None, &evs)).tag("unknown-after-kind"));
+    }
+
+    // --- C3: an array that declares no kind after one that does: it must be ignored, not stored under the old kind
+    for _ in 0..10 * scale {
+        let mut e = gen_el(rng, 0, &Opts { level: 2, noise_cv: 0, rich: Some(true) });
+        let mut extra = Vec::new();
+        for a in e.arrays.iter() {
+            let nv = 1 + rng.below(3);
+            let mut b = gen_arr(rng, MZ, nv, false);
+            b.params.retain(|q| q.c != MZ);
+            extra.push((a.clone(), b));
+        }
+        e.arrays = extra.into_iter().flat_map(|(a, b)| vec![a, b]).collect();
+        // also: a declared array with an empty payload followed by an undeclared one with data
+        let mut empty = gen_arr(rng, INT, 0, false);
+        empty.payload = Payload::Empty;
+        let mut b = gen_arr(rng, MZ, 2, false);
+        b.params.retain(|q| q.c != MZ);
+        e.arrays.push(empty);
+        e.arrays.push(b);
+        let evs = doc_events(&[e], rng, 0);
+        emit(Case::new(request(style_for(rng, 0), None, None, &evs)).tag("undeclared-kind"));
+    }
+
+    // --- D: the recorded defect (TIC = 0), kept small and apart
+    for i in 0..(if quick { 24 } else { 200 }) {
+        let nsp = 1 + rng.below(3);
+        let at = rng.below(nsp);
+        let mut els: Vec<El> = (0..nsp).map(|n| gen_el(rng, n, &Opts { level: 2, noise_cv: 0, rich: None })).collect();
+        let zero = *rng.pick(&[Val::N(0), Val::F(0), Val::F(0x8000_0000)]);
+        els[at].params.retain(|q| q.c != TIC);
+        let pos = rng.below(els[at].params.len() + 1);
+        els[at].params.insert(pos, p(TIC, zero));
+        let evs = doc_events(&els, rng, 0);
+        let filter = if i % 3 == 2 { Some(2u8) } else { None };
+        emit(Case::new(request(style_for(rng, 0), filter, None, &evs)).tag("tic-zero"));
+    }
+
+    // --- E: single-fault documents: every error class
+    for _ in 0..150 * scale {
+        let nsp = 1 + rng.below(3);
+        let els: Vec<El> = (0..nsp)
+            .map(|n| {
+                let level = *rng.pick(&[1u8, 2, 2]);
+                gen_el(rng, n, &Opts { level, noise_cv: 10, rich: None })
+            })
+            .collect();
+        let mut evs = doc_events(&els, rng, 10);
+        let tag = inject_fault(rng, &mut evs);
+        let (filter, sn) = rand_cfg(rng);
+        if let Some(tag) = tag {
+            emit(Case::new(request(style_for(rng, 0), filter, sn, &evs)).tag("single-fault").tag(tag));
+        }
+    }
+
+    // --- F: chaos: well-nested trees with elements in the wrong places
+    for _ in 0..300 * scale {
+        let mut evs = Vec::new();
+        let mut budget = 60usize;
+        for _ in 0..1 + rng.below(3) {
+            chaos_tree(rng, 0, &mut evs, &mut budget);
+        }
+        // never two adjacent text nodes (they would merge)
+        let mut clean: Vec<Ev> = Vec::new();
+        for e in evs {
+            if let (Some(Ev::Text(a)), Ev::Text(_)) = (clean.last(), &e) {
+                if *a != Payload::Empty {
+                    continue;
+                }
+            }
+            clean.push(e);
+        }
+        let (filter, sn) = rand_cfg(rng);
+        // style with wrap = off is not guaranteed; the wrapper elements are inert in every state
+        let nt = clean.len() >= 4;
+        emit(Case::new(request(style_for(rng, 0), filter, sn, &clean)).tag("chaos").nontrivial(nt));
+    }
+
+    // --- H: byte-level mutations of rendered documents
+    for _ in 0..300 * scale {
+        let mk = |rng: &mut Rng| {
+            let nsp = 1 + rng.below(3);
+            let els: Vec<El> =
+                (0..nsp).map(|n| gen_el(rng, n, &Opts { level: 2, noise_cv: 10, rich: None })).collect();
+            let evs = doc_events(&els, rng, 15);
+            render(rng.next() % 1000, &evs)
+        };
+        let a = mk(rng);
+        let b = mk(rng);
+        let (d, tag) = mutate_bytes(rng, &a, &b);
+        let (filter, sn) = rand_cfg(rng);
+        let mut o = Out::new();
+        o.raw("mzmlraw");
+        for x in [filter, sn] {
+            match x {
+                None => {
+                    o.n(0);
+                }
+                Some(v) => {
+                    o.n(1).n(v);
+                }
+            }
+        }
+        o.bytes(&d);
+        emit(Case::new(o.finish()).tag("raw-mutation").tag(tag));
+    }
 }
